@@ -53,13 +53,43 @@ theorem C07_convertFile_no_panic (res : Resolver) (path : Str) (imports : List I
 
 /-- **`CompilePackage` never panics**: for every bundle of well-formed files (any number of
 packages, files, declarations; entities, services, topics; any dependency graph, cyclic or not)
-and every package name, loading, converting and linking return `ok` or `err`. -/
+and every package name, loading, converting and linking return `ok` or `err`.
+`WfBundle` = for every file: every oneof named, every method with a request (what j5parse
+guarantees) AND the file path contains a `/` (`containsByte 47 path`). The last condition excludes a
+root-level source file (`a.j5s`, package ""): referenced from another file its generated name
+`a.j5s.proto` would reach the explicit `panic("invalid import path")` of `ensureImport` (the
+`Eff.imp` panic arm). By reading, not proved: the file sources of protobuild list files per package
+directory (`ListSourceFiles(pkg)`), so every path of a real bundle has a directory part; the
+harness never offers a root-level file, so this exclusion is NOT exercised by the streams either.
+"Never hangs": fuel exhaustion of `loadPkg` is an `err "fuel"` arm, not a panic arm, so this theorem
+alone would not see a modelled hang — see `C07_load_fuel_independent` below (under `rankOk` the
+result does not depend on the fuel; without `rankOk`, i.e. for cyclic package graphs, the chain check
+`err "circular"` stops the recursion — that the fuel `pkgs.length + 1` is never exhausted in that
+case is a comment in `Compile/Package.lean`, not a theorem). -/
 theorem C07_compile_no_panic (b : Bundle) (hb : WfBundle b) (name : Str) :
     ∀ w, compileLinked b name ≠ .panic w := by
   intro w hw
   have := compileLinked_no_panic b hb name
   rw [hw] at this
   cases this
+
+/-- a one-package bundle for the example of `C07_load_fuel_independent` -/
+def capturePkgForFuel : Pkg :=
+  { name := b!"foo.v1", files :=
+      [ .j5s b!"foo/v1/a.j5s" [] [.object (.mk b!"A" [.mk b!"x" false false (.string [] false)] [] none)]
+          b!"foo.v1" ] }
+
+/-- **The loader's fuel is irrelevant for acyclic package graphs** ("never hangs" at package
+level): with a rank that decreases along every package dependency (`rankOk`), loading any package
+with ANY two fuels above its rank (in particular `pkgs.length + 1` and every larger value) and any
+two admissible chains gives the same outcome — the `err "fuel"` arm is not what decides a result. -/
+theorem C07_load_fuel_independent (b : Bundle) (r : Str → Nat) (hr : rankOk b r = true)
+    (f f' : Nat) (n : Str) (hf : r n < f) (hf' : r n < f') :
+    loadPkg b f [] n = loadPkg b f' [] n :=
+  loadPkg_indep b r hr f f' [] [] n hf hf' (by intro c hc; cases hc) (by intro c hc; cases hc)
+
+/-- non-vacuity: a bundle with such a rank -/
+example : rankOk { pkgs := [capturePkgForFuel] } (fun _ => 0) = true := by decide
 
 /-! ## acceptance of the supported language -/
 
@@ -311,8 +341,16 @@ theorem C07_accepts_links_partial (b : Bundle) (r : Str → Nat) (hv : ValidBund
 
 /-- **…and the two remaining arms are exactly what is left**: under the same source-level
 hypotheses the package links IF AND ONLY IF no symbol is declared twice over the linked set and
-every type name resolves — no other way for `CompilePackage` to fail remains for a valid bundle with
-a file rank. (So a full `links` theorem needs precisely the two missing bridges, nothing else.) -/
+every type name resolves — no other arm of `linkFiles` remains for a valid bundle with a file rank.
+(So a full `links` theorem ABOUT THE LINK MODEL needs precisely the two missing bridges.)
+Scope: `linkFiles` is a SPEC of the link step of `CompilePackage` (protocompile: imports, cycles,
+symbols, name scoping, extension imports), validated against the real `CompilePackage` only by the
+differential streams. It has no arm for descriptor well-formedness rules that protocompile's link
+does not enforce either: an entity with 0 events or a `oneof Empty {}` (both pass `ValidBundle`)
+compile AND link in the code as in the model, and are rejected only later by `protodesc.NewFiles`
+("oneof must contain at least one field") — the recorded open findings
+`c17-client-api:entity-without-events` (compile.json) and `empty-oneof` (print.json). The iff says
+nothing about that later stage. -/
 theorem C07_links_iff (b : Bundle) (r : Str → Nat) (hv : ValidBundle b r)
     (rk : Str → Nat) (hrk : fileRankOk b rk = true) (p : Pkg) (hp : p ∈ b.pkgs)
     (hplain : ∀ path imports elems decl, SrcFile.j5s path imports elems decl ∈ p.files →
